@@ -53,6 +53,13 @@ class C10(Prop):
                     p[k] = FP(et).r(rng.choice(subs))
                     q[k] = FP(et).r(p[k] * rng.choice([0.0, 1.0, 2.0, 4.0]))
                 norm = False
+            if rng.chance(1, 3):
+                # p_i = 0 contributes exactly zero WHATEVER q_i is: NaN, infinite, negative or zero there
+                zs = [k for k in range(n) if p[k] == 0] or [rng.below(n)]
+                for k in zs:
+                    p[k] = 0.0
+                    q[k] = rng.choice([float("nan"), float("inf"), -1.0, 0.0, -0.0, float("-inf")])
+                norm = False
             nan_case = rng.chance(1, 10)
             if nan_case:
                 k = rng.below(n)
